@@ -162,6 +162,13 @@ def chk_block(case):
                 or g.get("raw") != t.ser().hex():
             out.append(("C15/block/tx-mismatch", f"tx #{i} of {len(txs)} differs after the round trip"))
             break
+    if not out:
+        # aliasing: the caller edits the structure it was handed (ids to RPC byte order, raw dropped, inputs cleared ...);
+        # an independent second deserialisation of the same bytes must not see any of it
+        from vf.edits import aliasing
+        why = aliasing(lambda: bc.block_deser(blk[1]))
+        if why:
+            out.append(("C15/block/aliased-result", f"block_deser of the same {len(raws)}-tx block after the caller edited the first result: {why}"))
     return out
 
 
